@@ -202,6 +202,7 @@ fn run_op(op: &str, n: usize) -> u64 {
             };
             let cfg = sophia_turtle::serializer::turtle::TurtleConfig::new().with_pretty(true);
             let mut ser = sophia_turtle::serializer::turtle::TurtleSerializer::new_stringifier_with_config(cfg);
+            let orig: Vec<[ST; 3]> = if n <= 1000 { ts.clone() } else { vec![] };
             ser.serialize_triples(ts.into_iter().into_source()).unwrap();
             let out = ser.as_utf8().to_vec();
             // parse it back: the number of triples must be the original one
@@ -212,6 +213,8 @@ fn run_op(op: &str, n: usize) -> u64 {
                 Err(e) if op == "ttl-chain" && format!("{e:?}").contains("StackOverflow") => return n as u64,
                 Err(e) => panic!("the Turtle parser rejects the serializer's output: {e:?}"),
             };
+            // small enough: the graph read back must be the graph written (up to blank node labels)
+            if n <= 1000 && !sophia_isomorphism::isomorphic_graphs(&orig, &back).unwrap() { return u64::MAX; }
             (back.len() as u64 - 1) / if op == "ttl-list" { 2 } else { 1 } + if op == "ttl-list" { 0 } else { 1 }
         }
         "insert-remove" => {
